@@ -193,4 +193,16 @@ CHECKS = {
         assumptions=["empty search needles are outside the domain (no caller passes one)",
                      "the stop position reported by bstr_util_mem_to_pint is pinned by the suite and not asserted"],
     ),
+    "C18": dict(
+        bins=["c18"], replay_bin="c18", campaigns=lambda tier, seed: [dict(name="c18", bin="c18", shards=16, timeout=3000, asan="detect_leaks=0:allocator_may_return_null=1:malloc_context_size=8")], level="fault_enumeration",
+        replay_env={"ASAN_OPTIONS": "detect_leaks=0:abort_on_error=0:allocator_may_return_null=1"},
+        rule=("inputs: the repository's 100+ captures (suite chunking, varied configuration: file extraction, auto-destroy, request decompression) and rapidcheck-generated scenarios "
+              "(exchanges with cookies / Basic+Digest auth / folding / trailers / 100-continue / pipelining, multipart with file parts and extraction, urlencoded bodies with chunked "
+              "framing, gzip / deflate / two-layer / LZMA coded bodies in both directions, CONNECT refused and tunnelled, malformed mixes; 10 personalities, shared configuration copy). "
+              "For each input the N allocations (malloc/calloc/realloc/strdup of libhtp, in-tree LZMA and statically linked zlib, wrapped at link time) of the fault-free run are counted, "
+              "then the input is re-run once for EVERY k in 1..N with the k-th allocation returning NULL, under ASan+UBSan, in forked children (a crash is recorded and the "
+              "enumeration continues with k+1). Non-trivial = the failed allocation happened after parser creation (mid-stream); counted per (input, k)"),
+        assumptions=["single fault per run (as the property states); leaks under an injected fault are not violations",
+                     "allocations made by libc internally (stdio, iconv) are not wrapped"],
+    ),
 }
